@@ -21,7 +21,7 @@ def IsDist (adj : Array (List (Nat × Int))) (s t : Nat) (D : Int) : Prop :=
   AdjWalk adj s t D ∧ ∀ D', AdjWalk adj s t D' → D ≤ D'
 
 /-- the heap hands out one of the candidates -/
-def PickOK (pick : List Nat → Nat) : Prop := ∀ l, l ≠ [] → pick l ∈ l
+def PickOK (pick : Pick) : Prop := ∀ i l, l ≠ [] → pick i l ∈ l
 
 namespace BiDijL
 
@@ -182,9 +182,9 @@ theorem findMin_attained (F : Frontier) (m : Int) (h : F.findMin = some m) : ∃
   · exact h
 
 /-- the popped node -/
-theorem pick_spec (pick : List Nat → Nat) (hp : PickOK pick) (F : Frontier) (hne : F.queue ≠ [])
+theorem pick_spec (pick : Pick) (hp : PickOK pick) (i : Nat) (F : Frontier) (hne : F.queue ≠ [])
     (hlab : ∀ v ∈ F.queue, ∃ d, F.dist[v]! = some d) :
-    ∃ du, pick F.minNodes ∈ F.queue ∧ F.dist[pick F.minNodes]! = some du ∧ F.findMin = some du ∧
+    ∃ du, pick i F.minNodes ∈ F.queue ∧ F.dist[pick i F.minNodes]! = some du ∧ F.findMin = some du ∧
       ∀ v ∈ F.queue, ∀ d, F.dist[v]! = some d → du ≤ d := by
   cases hq : F.queue with
   | nil => exact absurd hq hne
@@ -197,7 +197,7 @@ theorem pick_spec (pick : List Nat → Nat) (hp : PickOK pick) (F : Frontier) (h
       unfold Frontier.minNodes; rw [hm]
     have hyin : y ∈ F.minNodes := by
       rw [hmn]; exact List.mem_filter.2 ⟨hy, by simp [hdy]⟩
-    have hpk := hp F.minNodes (fun h => by rw [h] at hyin; cases hyin)
+    have hpk := hp i F.minNodes (fun h => by rw [h] at hyin; cases hyin)
     rw [hmn] at hpk
     obtain ⟨h1, h2⟩ := List.mem_filter.1 hpk
     rw [← hmn] at h1 h2
@@ -630,20 +630,20 @@ def stopB (st : BiState) : Bool :=
      | some bb, some x, some y => !(x + y < bb)
      | _, _, _ => false)
 
-theorem biLoop_succ (pick : List Nat → Nat) (fuel : Nat) (st : BiState) :
+theorem biLoop_succ (pick : Pick) (fuel : Nat) (st : BiState) :
     biLoop adj pick L (fuel + 1) st =
       if stopB st then some st.best
-      else match st.f.dist[pick st.f.minNodes]! with
+      else match st.f.dist[pick fuel st.f.minNodes]! with
         | none => some st.best
         | some du =>
           if (match L with | some l => !(du < l) | none => false) then none
           else biLoop adj pick L fuel
-            { f := (biScan L du adj[pick st.f.minNodes]!
-                      { st with f := { st.f with queue := st.f.queue.erase (pick st.f.minNodes) } }).b,
-              b := (biScan L du adj[pick st.f.minNodes]!
-                      { st with f := { st.f with queue := st.f.queue.erase (pick st.f.minNodes) } }).f,
-              best := (biScan L du adj[pick st.f.minNodes]!
-                      { st with f := { st.f with queue := st.f.queue.erase (pick st.f.minNodes) } }).best } := rfl
+            { f := (biScan L du adj[pick fuel st.f.minNodes]!
+                      { st with f := { st.f with queue := st.f.queue.erase (pick fuel st.f.minNodes) } }).b,
+              b := (biScan L du adj[pick fuel st.f.minNodes]!
+                      { st with f := { st.f with queue := st.f.queue.erase (pick fuel st.f.minNodes) } }).f,
+              best := (biScan L du adj[pick fuel st.f.minNodes]!
+                      { st with f := { st.f with queue := st.f.queue.erase (pick fuel st.f.minNodes) } }).best } := rfl
 
 /-- what the loop delivers -/
 def Post (adj : Array (List (Nat × Int))) (L : Option Int) (s t : Nat) (res : Option (Option Int)) : Prop :=
@@ -681,7 +681,7 @@ theorem stopB_eq (st : BiState) (hf : st.f.queue ≠ []) (hb : st.b.queue ≠ []
   rw [e1, e2]
   rfl
 
-theorem loop_spec (hadj : AdjOK adj) (pick : List Nat → Nat) (hp : PickOK pick) :
+theorem loop_spec (hadj : AdjOK adj) (pick : Pick) (hp : PickOK pick) :
     ∀ (fuel : Nat) (s t : Nat) (st : BiState) (Pf Pb : List Nat) (u : Nat), Inv2 adj L s t st Pf Pb u [] →
       2 * adj.size + 1 ≤ fuel + Pf.length + Pb.length → Post adj L s t (biLoop adj pick L fuel st)
   | 0, s, t, st, Pf, Pb, u, h, hf => by
@@ -724,18 +724,18 @@ theorem loop_spec (hadj : AdjOK adj) (pick : List Nat → Nat) (hp : PickOK pick
     · rw [if_neg hstop]
       have hfne : st.f.queue ≠ [] := fun e => hstop (stopB_of_nil_f st e)
       have hbne : st.b.queue ≠ [] := fun e => hstop (stopB_of_nil_b st e)
-      obtain ⟨du, hu, hdu, hfm, hmin⟩ := pick_spec pick hp st.f hfne h.f.qLab
+      obtain ⟨du, hu, hdu, hfm, hmin⟩ := pick_spec pick hp fuel st.f hfne h.f.qLab
       rw [hdu]
       simp only []
       by_cases hbd : Below L du
       · rw [if_neg (fun hh => (limTest L _).1 hh hbd)]
         have hpop := h.f.pop hadj hu hdu hmin
-        have h1 : Inv2 adj L s t { st with f := { st.f with queue := st.f.queue.erase (pick st.f.minNodes) } }
-            (pick st.f.minNodes :: Pf) Pb (pick st.f.minNodes) adj[pick st.f.minNodes]! :=
+        have h1 : Inv2 adj L s t { st with f := { st.f with queue := st.f.queue.erase (pick fuel st.f.minNodes) } }
+            (pick fuel st.f.minNodes :: Pf) Pb (pick fuel st.f.minNodes) adj[pick fuel st.f.minNodes]! :=
           { f := hpop, b := h.b.reset _, both := h.both, bw := h.bw }
         have h2 := scan_inv hadj (du := du) (List.mem_cons_self) _
-          { st with f := { st.f with queue := st.f.queue.erase (pick st.f.minNodes) } } (fun p hp => hp) hdu h1
-        refine Post.swap hadj (loop_spec hadj pick hp fuel t s _ Pb (pick st.f.minNodes :: Pf) (pick st.f.minNodes)
+          { st with f := { st.f with queue := st.f.queue.erase (pick fuel st.f.minNodes) } } (fun p hp => hp) hdu h1
+        refine Post.swap hadj (loop_spec hadj pick hp fuel t s _ Pb (pick fuel st.f.minNodes :: Pf) (pick fuel st.f.minNodes)
           { f := h2.b, b := h2.f, both := ?_, bw := fun β hβ => walk_rev hadj (h2.bw β hβ) } ?_)
         · intro z a b ha hb
           obtain ⟨β, hβ, hle⟩ := h2.both z b a hb ha
@@ -767,7 +767,7 @@ def finish (L : Option Int) (res : Option (Option Int)) : Option Int :=
   | some (some b) => if (match L with | some l => !(b < l) | none => false) then none else some b
   | _ => none
 
-theorem biDijkstra_eq (pick : List Nat → Nat) (s t : Nat) :
+theorem biDijkstra_eq (pick : Pick) (s t : Nat) :
     biDijkstra adj pick L s t = finish L (biLoop adj pick L (2 * adj.size + 2)
       { f := Frontier.init adj.size s, b := Frontier.init adj.size t, best := none }) := rfl
 
@@ -785,7 +785,7 @@ end BiDijL
 
 /-- **the value computed by the bidirectional search is the distance, if that is below the limit, and "not found"
 otherwise — whatever the heaps do among equal labels** -/
-theorem biDijkstra_correct (adj : Array (List (Nat × Int))) (h : AdjOK adj) (pick : List Nat → Nat) (hp : PickOK pick)
+theorem biDijkstra_correct (adj : Array (List (Nat × Int))) (h : AdjOK adj) (pick : Pick) (hp : PickOK pick)
     (limit : Option Int) (s t : Nat) (hs : s < adj.size) (ht : t < adj.size) (hst : s ≠ t) :
     (∀ D, IsDist adj s t D → (∀ l, limit = some l → D < l) → biDijkstra adj pick limit s t = some D) ∧
     (∀ w, biDijkstra adj pick limit s t = some w → IsDist adj s t w ∧ ∀ l, limit = some l → w < l) := by
